@@ -40,4 +40,14 @@ def jobs(tier, seed):
             for si in range(GC.N_SWEEPS_QUICK):
                 J.append({"family": "nesterov_prim:box_box", "args": {"a": P[i], "b": P[k], "sweep": GC.SWEEPS[si], "a_pose": si % 2,
                                                                        "swap": False, "algo": "nesterov_prim"}})
+        # the wall budget cuts the tail of the list: round-robin over the families so that every family gets its share
+        groups = {}
+        for j in J:
+            groups.setdefault(j["family"].split(":")[0], []).append(j)
+        order, lists = [], [groups[k] for k in ("jolt", "libccd", "branch_scene", "nesterov_prim", "mpr", "nesterov") if k in groups]
+        while any(lists):
+            for L in lists:
+                if L:
+                    order.append(L.pop(0))
+        J = order
     return J
